@@ -5,6 +5,7 @@ package main
 import (
 	"fmt"
 	"go/types"
+	"sort"
 	"strings"
 
 	"golang.org/x/tools/go/ssa"
@@ -382,8 +383,18 @@ func isStreamIface(u *types.Interface) bool {
 // havocAll forgets the whole heap.
 func (x *Exec) havocAll(st *State) {
 	st.content = nil
-	st.heap = map[string]Term{}
-	st.base = map[string]Term{}
+	// lock-neutrality: a call returns with the mutexes of the calling goroutine as they were (proved for every
+	// verified function without a frame - obligation "lock-neutral" - and assumed for unmodelled callees)
+	keepH, keepB := map[string]Term{}, map[string]Term{}
+	for _, k := range x.eng.lockKeys() {
+		keepH[k] = x.heapGet(st, k)
+	}
+	st.heap = keepH
+	st.base = keepB
+	st.havocked = true
+	if len(keepH) > 0 {
+		x.ctx.Trust("lock-neutrality of calls without a frame: unmodelled callees are assumed to return with the caller's mutexes as they were (proved for verified functions: obligation lock-neutral)")
+	}
 	if x.logging {
 		x.writeLog["$all"] = true
 	}
@@ -1403,4 +1414,16 @@ func markFresh(e Expr, f func(string)) {
 			}
 		}
 	}
+}
+
+// lockKeys: heap rows that hold the ghost flag "held" of a mutex (of every struct type registered so far).
+func (e *Engine) lockKeys() []string {
+	var out []string
+	for k, cp := range e.heapComps {
+		if cp.Kind == "ghost" && (cp.Path == "held" || strings.HasSuffix(cp.Path, ".held")) && e.heapSorts[k] == ArrOf(SBool) {
+			out = append(out, k)
+		}
+	}
+	sort.Strings(out)
+	return out
 }
